@@ -1,0 +1,40 @@
+/*
+ * Copyright 2025 The RuleGo Authors.
+ *
+ * Licensed under the Apache License, Version 2.0 (the "License");
+ * you may not use this file except in compliance with the License.
+ * You may obtain a copy of the License at
+ *
+ *     http://www.apache.org/licenses/LICENSE-2.0
+ *
+ * Unless required by applicable law or agreed to in writing, software
+ * distributed under the License is distributed on an "AS IS" BASIS,
+ * WITHOUT WARRANTIES OR CONDITIONS OF ANY KIND, either express or implied.
+ * See the License for the specific language governing permissions and
+ * limitations under the License.
+ */
+
+package window
+
+import "strings"
+
+// groupKeySep joins the parts of a composite window group key.
+const groupKeySep = "|"
+
+// nullGroupKeyPart is the key part of a NULL or missing grouping value. An
+// escaped value never contains a backslash followed by 'N', so no value can
+// imitate it: NULL forms its own group, distinct from the empty string.
+const nullGroupKeyPart = `\N`
+
+var groupKeyPartEscaper = strings.NewReplacer(`\`, `\\`, groupKeySep, `\`+groupKeySep)
+
+// groupKeyPart encodes one grouping value for a composite window key: the
+// separator and the escape character are escaped so that a value containing
+// '|' cannot shift into the neighbouring column (distinct tuples never share a
+// key). Values without '|' or '\' are left unchanged.
+func groupKeyPart(s string) string {
+	if !strings.ContainsAny(s, groupKeySep+`\`) {
+		return s
+	}
+	return groupKeyPartEscaper.Replace(s)
+}
